@@ -41,8 +41,8 @@ AllEllps == {"MERIT", "SGS85", "GRS80", "IAU76", "airy", "APL4.9", "NWL9D", "mod
     "GSK2011", "bessel", "bess_nam", "clrk66", "clrk80", "clrk80ign", "CPM", "delmbr", "engelis", "evrst30", "evrst48", "evrst56",
     "evrst69", "evrstSS", "fschr60", "fschr60m", "fschr68", "helmert", "hough", "intl", "krass", "kaula", "lerch", "mprts",
     "new_intl", "plessis", "PZ90", "SEasia", "walbeck", "WGS60", "WGS66", "WGS72", "WGS84", "sphere", "unitsphere"}
-\* quick: the default, the two most common historical ones, the most flattened of the table, a sphere
-QuickEllps == {"GRS80", "intl", "bessel", "mprts", "sphere"}
+\* quick: the default and WGS84, three historical ones, the most flattened of the table, the two spheres
+QuickEllps == {"GRS80", "WGS84", "intl", "bessel", "clrk80", "mprts", "sphere", "unitsphere"}
 Ellps == IF Q THEN QuickEllps ELSE AllEllps
 
 Abs(x) == IF x < 0 THEN 0 - x ELSE x
@@ -83,7 +83,10 @@ CurvFlags == {"prime", "meridian", "gaussian", "mean", "azimuthal"}
 GravFormulas == {"grs80", "grs67", "welmec", "jeffreys", "cassinis"}
 AuxPairs == {"aux:conformal~closed", "aux:conformal~isometric", "aux:conformal~ts", "aux:authalic~closed", "aux:authalic~qs",
              "aux:rectifying~arc", "aux:geocentric~closed", "aux:reduced~closed"}
-ArcPairs == {"arc:bowring~quadrature", "arc:series~quadrature", "arc:tmerc~quadrature", "arc:quadrant~quadrature"}
+ArcPairs == {"arc:bowring~quadrature", "arc:series~quadrature", "arc:tmerc~quadrature", "arc:quadrant~quadrature",
+             "arc:radius~quadrature", "arc:radius_bowring~quadrature"}
+\* the pairs whose only lattice point is the pole (a whole meridian quadrant)
+QuadrantPairs == {"arc:quadrant~quadrature", "arc:radius~quadrature", "arc:radius_bowring~quadrature"}
 Pairs == {"tmerc~btmerc", "utm~butm", "cart~GeoCart", "geodesic:fwd", "geodesic:inv"}
          \cup {"latitude:" \o f : f \in LatFlags} \cup {"curvature:" \o f : f \in CurvFlags} \cup {"gravity:" \o f : f \in GravFormulas}
          \cup AuxPairs \cup ArcPairs
@@ -103,11 +106,12 @@ Clause(id) == CASE id \in {"tmerc~btmerc", "utm~butm"} -> "tm"
 \* ---- shapes: the parameters both routes share (text), and the centre of the lattice (integer degrees)
 Sh(text, lon0) == [text |-> text, lon0 |-> lon0]
 KXY == " k_0=0.9996 x_0=500000 y_0=-100000"
+KXY2 == " k_0=1.0004 x_0=-2500000.5 y_0=7"
 Tm(lo, la, r) == Sh("lon_0=" \o S(lo) \o (IF la = 0 THEN "" ELSE " lat_0=" \o S(la)) \o r, lo)
 Utm(z, south) == Sh("zone=" \o S(z) \o (IF south THEN " south" ELSE ""), 6 * z - 183)
 Shapes(id) ==
-    CASE id = "tmerc~btmerc" -> IF Q THEN {Tm(9, 0, ""), Tm(9, 49, KXY), Tm(-177, -33, "")}
-                                ELSE {Tm(lo, la, r) : lo \in {9, -177, 0}, la \in {0, 49, -33}, r \in {"", KXY}}
+    CASE id = "tmerc~btmerc" -> IF Q THEN {Tm(9, 0, ""), Tm(9, 49, KXY), Tm(-177, -33, ""), Tm(0, 0, KXY2)}
+                                ELSE {Tm(lo, la, r) : lo \in {9, -177, 0, 179}, la \in {0, 49, -33}, r \in {"", KXY, KXY2}}
       [] id = "utm~butm" -> {Utm(z, s) : z \in (IF Q THEN {32} ELSE {1, 32, 60}), s \in BOOLEAN}
       [] id \in {"geodesic:fwd", "geodesic:inv"} -> {Sh("", 0), Sh("reversible", 0)}
       [] IsLat(id) \/ IsCurv(id) -> {Sh(FlagOf(id), 0)}
@@ -161,6 +165,9 @@ RouteA(id, s, e) ==
       \* the northing of the central meridian of a transverse Mercator projection with k_0 = 1 is the meridian arc
       [] id = "arc:tmerc~quadrature" -> Op("tmerc ellps=" \o e)
       [] id = "arc:quadrant~quadrature" -> Api("Meridians::meridian_quadrant", "")
+      \* the rectifying radius: the mean length of a radian of the meridian, to the eighth and to the fourth order
+      [] id = "arc:radius~quadrature" -> Api("Meridians::rectifying_radius", "")
+      [] id = "arc:radius_bowring~quadrature" -> Api("Meridians::rectifying_radius_bowring", "")
 
 RouteB(id, s, e) ==
     CASE id = "tmerc~btmerc" -> Op(OpDef("btmerc", s, e))
@@ -184,10 +191,21 @@ RouteB(id, s, e) ==
       [] id = "aux:rectifying~arc" -> Api("quadrature: rectifying", "")
       [] id = "aux:geocentric~closed" -> Api("closed: atan((1 - f)^2 tan(phi))", "")
       [] id = "aux:reduced~closed" -> Api("closed: atan((1 - f) tan(phi))", "")
+      [] id \in {"arc:radius~quadrature", "arc:radius_bowring~quadrature"} -> Api("quadrature: meridian arc / latitude", "")
       [] id \in ArcPairs -> Api("quadrature: meridian arc", "")
 
+\* ---- named deviations of the code from the reference (DESIGN 2.3): the prediction with the deviation enabled is route B
+\* replaced by DevB; an observation that contradicts the reference and equals this prediction is classified as that
+\* finding (if known_findings.json lists it), anything else is a violation.
+\*   DEV_rectifying_latitude_scaled_by_Qn: latitude_geographic_to_rectifying returns the meridian arc in units of the
+\*   semimajor axis (the rectifying latitude times the normalized meridian arc unit), its inverse expects that
+Dev(id) == IF id \in {"aux:rectifying~arc", "arc:series~quadrature"} THEN "DEV_rectifying_latitude_scaled_by_Qn" ELSE ""
+DevB(id) == CASE id = "aux:rectifying~arc" -> Api("quadrature: meridian arc / a", "")
+              [] id = "arc:series~quadrature" -> Api("quadrature: meridian arc * rectifying radius / a", "")
+              [] OTHER -> Api("", "")
+
 \* ---- what is evaluated, per direction
-Dirs(id) == CASE IsCurv(id) \/ IsGrav(id) \/ id \in {"geodesic:fwd", "aux:authalic~qs", "arc:quadrant~quadrature"} -> {"F"}
+Dirs(id) == CASE IsCurv(id) \/ IsGrav(id) \/ id \in {"geodesic:fwd", "aux:authalic~qs"} \cup QuadrantPairs -> {"F"}
               [] id = "geodesic:inv" -> {"I"}
               [] OTHER -> {"F", "I"}
 \* where the input of an inverse comes from: "" = the lattice point itself, "a.F" / "b.F" = a route applied forward to it
@@ -222,8 +240,16 @@ Cmp(id, s, dir) ==
       \* reversible: the destination, the return azimuth, the distance
       [] id = "geodesic:inv" -> [joint |-> "", el |-> IF s.text = "reversible" THEN El("deg", "deg", "deg", "len") ELSE El("deg", "deg", "len", "deg")]
       [] id \in ArcPairs -> [joint |-> "", el |-> IF dir = "F" THEN El("skip", "len", "skip", "skip") ELSE El("skip", "rad", "skip", "skip")]
-Out(id, dir) == IF id \in ArcPairs /\ dir = "F" THEN "len" ELSE "ang"
-Class(id, dir) == StatementClass(Clause(id), dir, Out(id, dir))
+\* what the compared output is: a length or an angle (the statement gives metres for the one, radians for the other)
+Modes(id, s, dir) == {Cmp(id, s, dir).el[i] : i \in 1..4} \ {"skip"}
+Out(id, s, dir) == IF "len" \in Modes(id, s, dir) \/ Cmp(id, s, dir).joint # "" THEN "len" ELSE "ang"
+\* the accuracy class of the catalogue, per pair and direction (ClassInv compares it with the statement)
+Class(id, dir) ==
+    CASE id \in {"tmerc~btmerc", "utm~butm"} -> "submm"
+      [] id = "cart~GeoCart" -> IF dir = "F" THEN "identical" ELSE "submm"
+      [] IsLat(id) \/ IsCurv(id) \/ IsGrav(id) \/ id \in {"geodesic:fwd", "geodesic:inv"} -> "rounding"
+      [] id \in AuxPairs -> "aux"
+      [] id \in ArcPairs -> IF dir = "F" THEN "arc" ELSE "aux"
 
 \* ---- ellipsoids: heights and distances of the lattices are metres, meaningless on the sphere of radius 1 m
 EllpsFor(id) == IF id \in {"cart~GeoCart", "geodesic:fwd", "geodesic:inv"} THEN Ellps \ {"unitsphere"} ELSE Ellps
@@ -231,21 +257,21 @@ EllpsFor(id) == IF id \in {"cart~GeoCart", "geodesic:fwd", "geodesic:inv"} THEN 
 (***************************************************************************)
 (* Lattices: blocks of four axes; a point is Mk(axis tuple)                *)
 (***************************************************************************)
-Lats89 == IF Q THEN {-890, -600, -455, -10, 0, 150, 300, 450, 600, 755, 890}
+Lats89 == IF Q THEN Range(-800, 800, 100) \cup {-890, -455, -10, 5, 555, 890}
           ELSE Range(-850, 850, 50) \cup {-890, -455, -10, 5, 555, 890}
 Lats90 == Lats89 \cup {-900, 900}
-EveryDegree89 == IF Q THEN Lats89 ELSE Range(-890, 890, 10)
-EveryDegree90 == IF Q THEN Lats90 ELSE Range(-900, 900, 10)
-DLon3 == IF Q THEN {-30, -15, 0, 10, 30} ELSE Range(-30, 30, 5)
-LonsGlobe == IF Q THEN {-1800, -300, 0, 1205} ELSE {-1800, -1500, -900, -300, -5, 0, 455, 1205, 1790}
-Heights == IF Q THEN {-10000, 0, 100000} ELSE {-10000, -100, 0, 1000, 8848, 50000, 100000}
-Azimuths == IF Q THEN {0, 450, 2250} ELSE {0, 300, 450, 900, 1350, 1800, 2250, 3590}
+EveryDegree89 == IF Q THEN Range(-850, 850, 50) \cup {-890, -455, -10, 5, 555, 890} ELSE Range(-890, 890, 10)
+EveryDegree90 == EveryDegree89 \cup {-900, 900}
+DLon3 == IF Q THEN {-30, -20, -10, 0, 5, 15, 30} ELSE Range(-30, 30, 5)
+LonsGlobe == IF Q THEN {-1800, -300, 0, 455, 1205} ELSE {-1800, -1500, -900, -300, -5, 0, 455, 1205, 1790}
+Heights == IF Q THEN {-10000, 0, 8848, 100000} ELSE {-10000, -100, 0, 1000, 8848, 50000, 100000}
+Azimuths == IF Q THEN {0, 450, 900, 2250} ELSE {0, 300, 450, 900, 1350, 1800, 2250, 3590}
 GravHeights == IF Q THEN {0, 8848} ELSE {-400, 0, 100, 8848}
-GeodLats == IF Q THEN {-330, 0, 550} ELSE {-800, -330, 0, 10, 550, 890}
-GeodDists == IF Q THEN {1000, 1000000} ELSE {1, 1000, 100000, 1000000, 5000000, 10000000}
+GeodLats == IF Q THEN {-330, 0, 550, 890} ELSE {-800, -330, 0, 10, 550, 890}
+GeodDists == IF Q THEN {1000, 1000000, 10000000} ELSE {1, 1000, 100000, 1000000, 5000000, 10000000}
 GeodLats1 == IF Q THEN {-330, 0, 550} ELSE {-500, -330, 0, 10, 550}
-GeodDLat == IF Q THEN {-400, 10} ELSE {-400, -50, 10, 300}
-GeodDLon == IF Q THEN {-600, 20} ELSE {-600, -10, 20, 450, 900}
+GeodDLat == IF Q THEN {-400, 10, 300} ELSE {-400, -50, 10, 300}
+GeodDLon == IF Q THEN {-600, 20, 900} ELSE {-600, -10, 20, 450, 900}
 
 Blk(a, b, c, d) == <<a, b, c, d>>
 Blocks(id, s) ==
@@ -258,7 +284,7 @@ Blocks(id, s) ==
       \* origin, and the differences to the destination: never both zero (the azimuths of a null geodesic are undefined)
       [] id = "geodesic:inv" -> <<Blk(GeodLats1, {120, -1000}, GeodDLat, GeodDLon \cup {0}), Blk(GeodLats1, {120, -1000}, {0}, GeodDLon)>>
       [] id \in AuxPairs -> <<Blk({0}, EveryDegree89, {0}, {0})>>
-      [] id = "arc:quadrant~quadrature" -> <<Blk({0}, {900}, {0}, {0})>>
+      [] id \in QuadrantPairs -> <<Blk({0}, {900}, {0}, {0})>>
       [] id = "arc:tmerc~quadrature" -> <<Blk({0}, EveryDegree89, {0}, {0})>>
       [] id \in ArcPairs -> <<Blk({0}, EveryDegree90, {0}, {0})>>
 Mk(id, s, t) ==
@@ -310,7 +336,16 @@ DomainInv == pt # NoPt => InDomain(pair, shp, pt)
 \* the accuracy classes are those of the statement
 ClassInv == pt # NoPt =>
     /\ Class(pair, dir) \in Classes
-    /\ Class(pair, dir) = StatementClass(Clause(pair), dir, Out(pair, dir))
+    /\ Class(pair, dir) = StatementClass(Clause(pair), dir, Out(pair, shp, dir))
+    \* the way of comparing fits the unit of the class
+    /\ LET c == Cmp(pair, shp, dir)  u == Tol(Class(pair, dir)).unit  ms == Modes(pair, shp, dir)
+       IN  /\ c.joint \in {"", "plane", "ground2", "ground3"}
+           /\ (c.joint # "" => u = "m" /\ ms = {})
+           /\ (c.joint = "" => /\ ms # {}
+                                /\ (u = "bits" => ms = {"bits"})
+                                /\ (u = "m" => ms = {"len"})
+                                /\ (u = "rad" => ms = {"rad"})
+                                /\ (u = "rel" => ms \subseteq {"len", "rad", "deg", "num"}))
     /\ (Clause(pair) = "tm" => Tol(Class(pair, dir)) = [m |-> 1, e |-> -3, unit |-> "m"])
     /\ (Clause(pair) = "cart" => IF dir = "F" THEN Tol(Class(pair, dir)).unit = "bits" ELSE Tol(Class(pair, dir)) = [m |-> 1, e |-> -3, unit |-> "m"])
     /\ (Clause(pair) \in {"latitude", "curvature", "geodesic", "gravity"} => Tol(Class(pair, dir)).unit = "rel")
@@ -319,6 +354,9 @@ ClassInv == pt # NoPt =>
     /\ RouteA(pair, shp, el)[dir] # ""
     /\ (Expect(pair, dir) = "b" => RouteB(pair, shp, el)[dir] # "")
     /\ (Via(pair, dir) = "b.F" => RouteB(pair, shp, el).F # "")
+    \* ... also in the prediction with the pair's deviation switch enabled
+    /\ (Dev(pair) # "" => /\ (Expect(pair, dir) = "b" => DevB(pair)[dir] # "")
+                          /\ (Via(pair, dir) = "b.F" => DevB(pair).F # ""))
 \* the number of obligations of a configuration is the product of its axes (no two lattice coordinates collapse)
 CountInv == pt = NoPt => /\ Cardinality(Pts(pair, shp)) = SumSizes(Blocks(pair, shp), 1)
                          /\ Pts(pair, shp) # {} /\ Dirs(pair) # {}
@@ -328,6 +366,7 @@ DirRec(d) == [dir |-> d, cls |-> Class(pair, d), tol |-> Tol(Class(pair, d)), vi
 Emit == pt = NoPt =>
     PrintT(<<"ROUTE", ToJson([pair |-> pair, clause |-> Clause(pair), shape |-> shp.text, ellps |-> el,
                               a |-> RouteA(pair, shp, el), b |-> RouteB(pair, shp, el), dk |-> Dk(pair),
+                              dev |-> [name |-> Dev(pair), b |-> DevB(pair)],
                               dirs |-> {DirRec(d) : d \in Dirs(pair)}, pts |-> Pts(pair, shp),
                               n |-> Cardinality(Pts(pair, shp)) * Cardinality(Dirs(pair))])>>)
 =============================================================================
